@@ -174,7 +174,8 @@ class ArraySys(System):
         if 'meta1' in self.features:
             ops += [('meta', 'set', 'a'), ('meta', 'del', 'a'), ('meta', 'change', 'a')]
         if 'recreate' in self.features:
-            ops += [('recreate', 'other'), ('recreate', 'meta'), ('recreate', 'same0'), ('recreate', 'genmix')]
+            ops += [('recreate', 'other'), ('recreate', 'meta'), ('recreate', 'same0'), ('recreate', 'genmix'),
+                    ('recreate', 'strided'), ('recreate', 'reject')]
         if 'copy' in self.features:
             ops += [('copycheck',)]
         return ops, disabled
@@ -447,6 +448,15 @@ class ArraySys(System):
         elif which == 'meta':
             ref = payload.values('H', 1, self.trail, self.dtype)
             meta = {'a': 'recreated'}
+        elif which == 'strided':       # a 2-D+ source that is neither C- nor F-contiguous
+            big = payload.values('H', 3, (4,) + tuple(self.trail), self.dtype)
+            src = big[:, ::2]
+            ref = np.ascontiguousarray(src)
+            meta = None
+        elif which == 'reject':        # unsupported element type: refused, the array that is there stays as it is
+            src = np.array([True, False])
+            ref = None
+            meta = None
         elif which == 'genmix':        # iterator whose later chunks have another item size: cast to the first chunk's dtype
             first = payload.values('H', 1, self.trail, self.dtype)
             wide = np.dtype('<f8') if self.dtype.itemsize != 8 else np.dtype('<f4')
@@ -457,10 +467,24 @@ class ArraySys(System):
         else:
             ref = np.zeros((0,) + self.trail, dtype=self.dtype)
             meta = None
-        arg = src if which == 'genmix' else ref
+        arg = src if which in ('genmix', 'strided', 'reject') else ref
+        if which == 'reject':
+            vis0, dec0 = self._visible(), self._decoded()
         what, val = outcome_of(lambda: darr.asarray(self.path, arg, metadata=meta, accessmode=m.mode,
                                                     overwrite=True))
         label = what if what == 'returns' else f'raises:{exc_class(val)}'
+        if which == 'reject':
+            V = []
+            if what == 'returns' or not isinstance(val, TypeError):
+                V.append(viol('create', opdesc, pre, f'{label} (expected TypeError)', f'asarray(bool data, overwrite=True) {label}'))
+            dec1 = self._decoded()
+            if dec1 != dec0:
+                V.append(viol('format', opdesc, pre, 'refused re-creation changed the array on disk',
+                              f'asarray(unsupported type, overwrite=True) was refused ({label}) but a file reader now sees '
+                              f'{dec1[:2]} instead of {dec0[:2]}'))
+            elif outcome_of(self._visible)[1] != vis0:
+                V.append(viol('model', opdesc, pre, 'refused re-creation changed the visible state', label))
+            return StepResult(label, V, diverged=bool(V))
         if what != 'returns':
             V = [viol('create', opdesc, pre, label, f'asarray(overwrite=True) {label}')]
             if 'format' in self.oracles:      # whatever the failed call left behind must still be a self-describing array
